@@ -59,7 +59,7 @@ PROPS = {
  'C06': dict(pats=WRITERS + SIZES + [R + r'roaringArray\.readFrom$', R + r'byteSliceAs\w+$'], note='Layout clauses of the writers (cookie, counts, payload bytes little-endian) and the reader.'),
  'C07': dict(pats=BINOPS + CONV + RA_OWN + MUT + [r'^roaring64\.roaringArray64\.(getWritableContainerAtIndex|appendWithoutCopy|appendCopy\w*|cloneCopyOnWriteContainers|clone|markAllAsNeedingCopyOnWrite)$'] + BM(r'Clone'),
              kinds=['frame', 'post', 'inv', 'call', 'assert'], note='Non-interference: frame obligations (nothing outside the declared footprint is written: arguments of binary operations are never modified), freshness/ownership postconditions of every container operation (the result shares no storage with an operand unless it IS the receiver), and the copy-on-write discipline of the chunk table (a shared container is flagged in both tables or cloned).'),
- 'C08': dict(pats=[R + r'Bitmap\.(FromBuffer|FromUnsafeBytes|FrozenView|MustFrozenView|CloneCopyOnWriteContainers)$', R + r'roaringArray\.(readFrom|frozenView|getWritableContainerAtIndex|cloneCopyOnWriteContainers|getUnionedWritableContainer)$', R + r'byteSliceAs\w+$'] + [p for p in BINOPS],
+ 'C08': dict(pats=[R + r'Bitmap\.(FromBuffer|FromUnsafeBytes|FrozenView|MustFrozenView|CloneCopyOnWriteContainers)$', R + r'roaringArray\.(readFrom|frozenView|getWritableContainerAtIndex|cloneCopyOnWriteContainers|getUnionedWritableContainer)$', R + r'byteSliceAs\w+$', r'^internal\.', R + r'Bitmap\.(AndNot|And|Or|Xor|Add|Remove|AddRange|RemoveRange|Flip)$'],
              kinds=['frame', 'post', 'inv', 'call'], note='Buffer-backed bitmaps: the decoders flag every container that aliases the caller bytes as copy-on-write; writable access clones flagged containers; in-place container operations write only into their own representation (frame obligations).'),
  'C09': dict(pats=VALID + CONV + MUT + BINOPS + RA_MUT + [R + r'lemma_(validNonempty|bitmapSomeBit)$'], kinds=['post', 'inv', 'call', 'assert'],
              note='Validators characterise well-formedness (validate returns nil exactly on well-formed containers/tables), and every constructive container operation ensures well-formedness of its result (cwf/awf/bwf/rwf clauses).'),
